@@ -10,5 +10,15 @@ for l in open('/verif/properties.jsonl'):
         break
 a = p['anchors']
 anchors = "files: " + ", ".join(a.get('files', [])) + "\nmechanisms: " + "; ".join("%s (%s)" % (m['name'], m['where']) for m in a.get('mechanism', [])) + "\nobserve at: " + "; ".join(a.get('observe_at', []))
+import glob, os
+known = []
+for d in sorted(glob.glob('/verif/seeded/%s-*' % pid)):
+    try:
+        m = json.load(open(os.path.join(d, 'meta.json')))
+        known.append("- %s (%s)" % (m.get('title', '?'), ", ".join(m.get('files_touched', []) or [])))
+    except Exception:
+        pass
 t = open('/verif/tools/mutant_brief.md').read()
+if known:
+    t += "\n\nChanges of the following kinds have ALREADY been produced by an earlier run; do not repeat them or close variants of them — find different mechanisms, different files where possible, and different trigger conditions:\n" + "\n".join(known) + "\n"
 print(t.replace('{WT}', wt).replace('{TAG}', tag).replace('{N}', n).replace('{PID}', pid).replace('{TITLE}', p['title']).replace('{STATEMENT}', p['statement'] + "\n(quantifier: " + str(p.get('quantifier')) + ")").replace('{ANCHORS}', anchors))
